@@ -27,7 +27,8 @@ func VerifC12_stall() {
 			}
 			return data
 		}
-		r := verifStart(context.Background(), timeout, temp, p)
+		skew := time.Duration(verifrt.Fork("skew", 3)-1) * time.Hour // client clock -1h / 0 / +1h off the timer clock
+		r := verifStartSkew(context.Background(), timeout, temp, p, skew)
 		if silentFrom == 4 {
 			verifrt.Assert(r.clientDone && r.clientErr == nil, "C12.stall.completes")
 			verifrt.Assert(r.serverDone && r.serverErr == nil && r.serverKey == r.result.AuthKey.Value, "C12.stall.samekey")
